@@ -9,6 +9,7 @@ An operation is a JSON list:
     ["del_key", key]            del section[key]   (first item whose session mnemonic matches key)
     ["set", key, name]          section[key] = item(name)  (SectionItems.set_item: replaces the first item
                                 whose session mnemonic matches key; documented to append when key is absent)
+    ["set_ix", i, name]         section[i] = item(name)   (integer key: the item at position i is replaced)
     ["rci", i, name]            LASFile.replace_curve_item(i, CurveItem(name))   (curves flavour only, i >= 0)
 
 The reference (`vlib.models.NameModel`) is the documented naming rule; positions follow Python list semantics.
@@ -88,7 +89,7 @@ def model_apply(m, op):
         m.delete(i)
         m.insert(i, op[2])
         return old, op[2]
-    if k == "rci":
+    if k in ("rci", "set_ix"):
         if not 0 <= op[1] < n:
             raise LookupError(op)
         old = m.items[op[1]][0]
@@ -125,7 +126,7 @@ def list_apply(objs, op, new, find):
             objs.append(new)
         else:
             objs[i] = new
-    elif k == "rci":
+    elif k in ("rci", "set_ix"):
         objs[op[1]] = new
     elif k == "move":
         objs.insert(op[2], objs.pop(op[1]))
@@ -156,10 +157,9 @@ def applicable_ops(keys, names, rci=True):
     for key in dk:
         for nm in names:
             yield ["set", key, nm]
-    if rci:
-        for i in range(n):
-            for nm in names:
-                yield ["rci", i, nm]
+    for i in range(n):
+        for nm in names:
+            yield ["rci" if rci else "set_ix", i, nm]
 
 
 def histories(names, maxlen, ci, rci=True):
@@ -262,7 +262,7 @@ class Driver(object):
         k = op[0]
         s = self.section
         las = self.las
-        new = self.new_item(op[-1]) if k in ("append", "insert", "set", "rci") else None
+        new = self.new_item(op[-1]) if k in ("append", "insert", "set", "rci", "set_ix") else None
         # position for the object list is determined BEFORE the call, from the names the items then carry
         if pos is _OBSERVED:
             pos = self.find(op[1]) if k in ("del_key", "set") else None
@@ -287,6 +287,8 @@ class Driver(object):
             s[op[1]] = new
         elif k == "rci":
             las.replace_curve_item(op[1], new)
+        elif k == "set_ix":
+            s[op[1]] = new
         elif k == "move":
             it = list.__getitem__(s, op[1])
             if las is not None:
